@@ -228,6 +228,11 @@ def _parse(out: str, rc: int, wall: float, cmd: str) -> Result:
             if mm:
                 generated = int(mm.group(1).replace(",", ""))
                 distinct = int(mm.group(2).replace(",", ""))
+        elif code == 2210:
+            mm = re.search(r"states generated: ([\d,]+)", text)
+            if mm:
+                generated = int(mm.group(1).replace(",", ""))
+                distinct = generated  # simulation: states visited along random behaviours (not deduplicated)
         elif code == 2194:
             mm = re.search(r"search is (\d+)", text)
             if mm:
